@@ -459,11 +459,9 @@ func IsWordChar(r rune) bool {
 }
 
 func IsECMAWordChar(r rune) bool {
-	return unicode.In(r,
-		unicode.Categories["L"], unicode.Categories["Mn"],
-		unicode.Categories["Nd"], unicode.Categories["Pc"])
-
-	//return 'A' <= r && r <= 'Z' || 'a' <= r && r <= 'z' || '0' <= r && r <= '9' || r == '_'
+	// the same characters as \w in ECMAScript mode (ECMAWordClass): a word
+	// boundary is "a \w character on exactly one side"
+	return 'A' <= r && r <= 'Z' || 'a' <= r && r <= 'z' || '0' <= r && r <= '9' || r == '_'
 }
 
 func IsECMAIdentifierStartChar(r rune) bool {
